@@ -26,6 +26,8 @@ pub struct Ledger {
     pub bad_read: bool,
     pub drop_events: u32,
     pub clone_events: u32,
+    /// ids in the order their destructors ran (first 32)
+    pub order: [u8; 32],
 }
 
 pub static mut L: Ledger = Ledger {
@@ -35,6 +37,7 @@ pub static mut L: Ledger = Ledger {
     bad_read: false,
     drop_events: 0,
     clone_events: 0,
+    order: [0; 32],
 };
 
 pub fn ledger_reset() {
@@ -63,6 +66,11 @@ pub fn clone_events() -> u32 {
 #[inline]
 pub fn drop_events() -> u32 {
     unsafe { L.drop_events }
+}
+/// id whose destructor ran as the k-th destructor call since the last reset
+#[inline]
+pub fn dropped_at(k: usize) -> u8 {
+    unsafe { L.order[k & 31] }
 }
 #[inline]
 pub fn bad_drop() -> bool {
@@ -112,6 +120,9 @@ impl Drop for Tok {
             }
             if L.drops[i] < 250 {
                 L.drops[i] += 1;
+            }
+            if (L.drop_events as usize) < 32 {
+                L.order[L.drop_events as usize] = self.0;
             }
             L.drop_events += 1;
         }
